@@ -226,6 +226,29 @@ class Exec:
                         if self.book[c.addr][1] > self.maxk:
                             self.flags["give_ups_observed"] += 1
 
+    def do_hello(self, c, own, my_port, salt=0):
+        """a greeting arrives on connection c (own = it carries the node's own nonce: the far end is the node itself)"""
+        from ipaddress import IPv6Address
+        M, RP = self.M, self.RP
+        nonce = self.node.lp.nonce if own else 1000 + salt
+        msg = M.HelloMessage([M.SupportedVersion(0)], IPv6Address("::FFFF:10.0.0.1"), 2412, IPv6Address("0::0"), my_port, nonce, b"h")
+        self.send(c, msg)
+        self.pump()
+        c.greeted = True
+        self.flags["greetings"] += 1
+        if c.direction == "out":
+            self.book[c.addr][1] = 0
+            if own:
+                self.own.add(c.addr)
+                self.flags["self_connections"] += 1
+                if c.node_sock in self.node.lp.selector.map and not c.node_sock.closed:
+                    self.fail("self", "self-connection-not-dropped", "a connection whose greeting carried the node's own nonce was kept")
+        else:
+            a = (c.addr[0], my_port)
+            key = (a[0], a[1], RP.OUTGOING)
+            if a not in self.book and key in self.node.nm.disconnected_peers:
+                self.book[a] = [None, 0]
+
     def invariant(self, where):
         nm = self.node.nm
         both = set(nm.connected_peers) & set(nm.disconnected_peers)
@@ -265,6 +288,34 @@ class Exec:
                 c.node_sock.peer = r
                 r.established = c.node_sock.established = True
                 c.remote = r
+        elif k == "self_loop":
+            # a REAL connection of the node to itself: the pending dial to its own address is established, which creates the
+            # other end as an incoming connection of the same node; both ends then receive a greeting carrying the node's own
+            # nonce and listening port -- in either order
+            pend = [c for c in self.conns if c.alive and c.direction == "out" and c.remote is None and c.node_sock in self.net.pending_connects and c.addr == self.OWN]
+            if not pend:
+                return
+            c = pend[0]
+            self.net.pending_connects.remove(c.node_sock)
+            r = simnet.FakeSock(node=simnet._Outside(self.net, c.addr[0]))
+            r.peer = c.node_sock
+            c.node_sock.peer = r
+            r.established = c.node_sock.established = True
+            c.remote = r
+            port = 50000 + op[2] % 2
+            r2 = simnet.FakeSock(node=simnet._Outside(self.net, self.OWN[0]))
+            c2 = simnet.FakeSock(self.node)
+            c2.peer, r2.peer = r2, c2
+            c2.established = r2.established = True
+            c2.peername = (self.OWN[0], port)
+            self.node.listen.backlog.append(c2)
+            self.net.run(self.node, self.node.lp.handle_incoming_connection, self.node.listen)
+            ci = Conn(c2, r2, "in", (self.OWN[0], port))
+            self.conns.append(ci)
+            self.flags["self_loops"] = self.flags.get("self_loops", 0) + 1
+            for x in ([c, ci] if op[1] % 2 == 0 else [ci, c]):
+                if x.alive and not x.node_sock.closed:
+                    self.do_hello(x, True, self.OWN[1])
         elif k == "incoming":
             host = ["10.0.0.2", "10.0.0.3", "10.0.0.1"][op[1] % 3]
             port = 50000 + op[2] % 2                       # small ephemeral range -> duplicate (host, port, INCOMING) keys
@@ -289,27 +340,7 @@ class Exec:
             elif k == "garbage":
                 c.node_sock.inflight += b"XXXXYYYY"
             elif k == "hello":
-                from ipaddress import IPv6Address
-                own = op[2] % 4 == 0
-                nonce = self.node.lp.nonce if own else 1000 + op[2]
-                my_port = [2412, 2413, 0, 2412][op[3] % 4]
-                msg = M.HelloMessage([M.SupportedVersion(0)], IPv6Address("::FFFF:10.0.0.1"), 2412, IPv6Address("0::0"), my_port, nonce, b"h")
-                self.send(c, msg)
-                self.pump()
-                c.greeted = True
-                self.flags["greetings"] += 1
-                if c.direction == "out":
-                    self.book[c.addr][1] = 0
-                    if own:
-                        self.own.add(c.addr)
-                        self.flags["self_connections"] += 1
-                        if c.node_sock in self.node.lp.selector.map and not c.node_sock.closed:
-                            self.fail("self", "self-connection-not-dropped", "a connection whose greeting carried the node's own nonce was kept")
-                else:
-                    a = (c.addr[0], my_port)
-                    key = (a[0], a[1], RP.OUTGOING)
-                    if a not in self.book and key in self.node.nm.disconnected_peers:
-                        self.book[a] = [None, 0]
+                self.do_hello(c, op[2] % 4 == 0, [2412, 2413, 0, 2412][op[3] % 4], op[2])
             elif k == "peers":
                 from ipaddress import IPv6Address
                 if not c.greeted:
@@ -408,6 +439,10 @@ class Machine(RuleBasedStateMachine):
     @rule(h=st.integers(0, 2), p=st.integers(0, 1))
     def incoming(self, h, p):
         self.do(["incoming", h, p])
+
+    @rule(order=st.integers(0, 1), p=st.integers(0, 1))
+    def self_loop(self, order, p):
+        self.do(["self_loop", order, p])
 
     @rule(i=st.integers(0, 20), n=st.integers(0, 7), p=st.integers(0, 3))
     def hello(self, i, n, p):
